@@ -77,7 +77,9 @@ def _gen_list(r, wrapper_free, nv):
             return b
         if d >= maxd or (d > 0 and r.random() < 0.3):
             return leaf()
-        k = r.choice(["Sum", "Sum", "Product", "Product", "Quotient", "FloorDiv", "Power",
+        # no floor division: merged commuted float sums may associate differently, and a
+        # discontinuous operation would amplify that legitimate rounding difference
+        k = r.choice(["Sum", "Sum", "Product", "Product", "Quotient", "Quotient", "Power",
                       "Call", "Call"])
         if k in ("Sum", "Product"):
             n = r.randint(2, 3)
